@@ -157,7 +157,7 @@ structure CandleDuration where
   duration : Int
   suffix : Suffix
   mult : Int
-deriving Repr
+deriving Repr, DecidableEq
 
 /-- leftmost match of `(\d+)(Sec|Min|H|D|W|M|Y)`: `run` holds the digits of the maximal digit run
     that ends just before the current position (most recent first) -/
